@@ -366,6 +366,7 @@ def _cls_table():
         "passthrough": (OptionalPassthrough, None), "adaptor": (TabularToSeriesAdaptor, None),
         "gscv": (ForecastingGridSearchCV, None), "colens": (ColumnEnsembleClassifier, "estimators"),
         "cv": (SingleWindowSplitter, None), "scorer": (_MetricFunctionWrapper, None),
+        "drop": (str, None),  # the documented "drop" specifier in a column ensemble's list
     }
 
 
@@ -378,6 +379,8 @@ def is_node(v):
 
 
 def build_node(n):
+    if n["cls"] == "drop":
+        return "drop"
     T = _cls_table()
     cls, attr = T[n["cls"]]
     kw = {}
@@ -401,6 +404,8 @@ def build_node(n):
 
 
 def full_params(n):
+    if n["cls"] == "drop":
+        return {}
     T = _cls_table()
     cls, attr = T[n["cls"]]
     sig = inspect.signature(cls.__init__)
@@ -433,6 +438,8 @@ def matches(actual, exp, attr_of=None):
     """Does the real value `actual` correspond to the model value `exp`?"""
     T = _cls_table()
     if is_node(exp):
+        if exp["cls"] == "drop":
+            return isinstance(actual, str) and actual == "drop"
         cls, attr = T[exp["cls"]]
         if type(actual) is not cls:
             return False
@@ -659,6 +666,7 @@ def enum_replace_components(tier):
         node("stack", forecasters=fcs(lf[:2]), final_regressor=node("linreg")),
         node("pipeline", steps=[["t%d" % 0, node("deseason", sp=2)], ["t%d" % 1, node("log")], ["fc", lf[0]]]),
         node("colens", estimators=[["m%d" % i, node("tsf", n_estimators=2 + i)] for i in range(2)]),
+        node("colens", estimators=[["m%d" % 0, node("drop")], ["m%d" % 1, node("tsf", n_estimators=2)], ["m%d" % 2, node("tsf", n_estimators=3)]]),
         node("ensemble", forecasters=fcs([node("pipeline", steps=[["t%d" % 0, node("log")], ["fc", lf[1]]]),
                                           node("multiplex", forecasters=fcs(lf[:2]), selected_forecaster=_NAMES[0])])),
         node("gscv", forecaster=node("ensemble", forecasters=fcs(lf[:2])), cv=node("cv"), param_grid={"window_length": [2, 3]}),
@@ -704,8 +712,9 @@ def _roots():
     lvl0 = st.one_of(leaf, red())
     lvl1 = st.one_of(ens(lvl0), mux(lvl0), stack(lvl0), pipe(lvl0), gs(leaf))
     lvl2 = st.one_of(ens(st.one_of(lvl0, lvl1)), pipe(lvl1), mux(st.one_of(lvl0, lvl1)), stack(st.one_of(lvl0, lvl1)), gs(lvl1))
-    colens = st.builds(lambda k: node("colens", estimators=[["m%d" % i, node("tsf", n_estimators=2 + i)] for i in range(k)]),
-                       st.integers(1, 3))
+    # (an entry may be the string "drop" instead of an estimator: it stays a named entry of the list)
+    colens = st.builds(lambda k, dr: node("colens", estimators=[["m%d" % i, node("drop") if i == dr else node("tsf", n_estimators=2 + i)] for i in range(k)]),
+                       st.integers(1, 3), st.integers(0, 5))
     return st.one_of(lvl1, lvl2, lvl2, colens)
 
 
